@@ -649,7 +649,10 @@ def model_matches_real_threads(budget: float, replay=None) -> dict:
     for roles, past, first, p1 in cases:
         s, world, registry, entry = _scenario(roles, past, first, [(p1, 1 - first)])
         _v, rworld, res = _run_real(roles, past, s)
-        ok = (not res["diverged"]) and res["completed"] and sorted(rworld.dispatched) == sorted(world.dispatched) and rworld.closes == world.closes and not any(res["exceptions"])
+        forced = (not res["diverged"]) and res["completed"]  # was the recorded schedule really imposed?
+        ok = forced and sorted(rworld.dispatched) == sorted(world.dispatched) and rworld.closes == world.closes and not any(res["exceptions"])
+        if not forced and attempts.get(repr((roles, past, first, p1)), 0) >= 2:
+            continue  # timing: the schedule could not be imposed on the threads; says nothing either way
         if ok:
             agree += 1
             coop.STATS["real_replays_agree"] += 1
